@@ -53,11 +53,16 @@ BOOL UpdateProcThreadAttribute(LPPROC_THREAD_ATTRIBUTE_LIST l, DWORD flags, uint
 }
 void DeleteProcThreadAttributeList(LPPROC_THREAD_ATTRIBUTE_LIST l) { (void) l; }
 UINT SetErrorMode(UINT mode) { (void) mode; return 0; }
-DWORD GetProcessId(HANDLE h) { (void) h; return 4242; }
-DWORD WaitForSingleObject(HANDLE h, DWORD ms) { (void) h; (void) ms; return 0; }
-BOOL GetExitCodeProcess(HANDLE h, DWORD *code) { (void) h; *code = 0; return 1; }
-BOOL GenerateConsoleCtrlEvent(DWORD ev, DWORD group) { (void) ev; (void) group; return 1; }
-BOOL TerminateProcess(HANDLE h, UINT code) { (void) h; (void) code; return 1; }
+// process ids are derived from the handle so that "the right process" is checkable
+static DWORD pid_of(HANDLE h) { return (DWORD) ((uintptr_t) h * 7 + 11); }
+static DWORD scripted_exit_code, rec_wait_ms, rec_ctrl_event, rec_ctrl_group, rec_term_code;
+static HANDLE rec_wait_handle, rec_code_handle, rec_term_handle;
+static int n_ctrl, n_term, n_wait;
+DWORD GetProcessId(HANDLE h) { return pid_of(h); }
+DWORD WaitForSingleObject(HANDLE h, DWORD ms) { rec_wait_handle = h; rec_wait_ms = ms; n_wait++; return 0; }
+BOOL GetExitCodeProcess(HANDLE h, DWORD *code) { rec_code_handle = h; *code = scripted_exit_code; return 1; }
+BOOL GenerateConsoleCtrlEvent(DWORD ev, DWORD group) { rec_ctrl_event = ev; rec_ctrl_group = group; n_ctrl++; return 1; }
+BOOL TerminateProcess(HANDLE h, UINT code) { rec_term_handle = h; rec_term_code = code; n_term++; return 1; }
 BOOL CloseHandle(HANDLE h)
 {
   if (n_closed < 16) rec_closed[n_closed++] = h;
@@ -554,10 +559,56 @@ static void check_handles(void)
   }
 }
 
+// Windows halves of C01 (status decoding), C06 (the right process is waited for / signalled) and
+// C07 (terminate = CTRL-BREAK to the child's own group, kill = TerminateProcess with 137), at the
+// Win32 boundary.
+static long st_life_cases;
+static void check_life(void)
+{
+  st_life_cases++;
+  HANDLE h = (HANDLE) (intptr_t) (0x1000 + 0x10 * (rnd() % 5000));
+  HANDLE hh[4] = { h, h, h, h };
+  char msg[200];
+  // wait: every exit code 0..255 comes back as it is; the CTRL-BREAK exit code means SIGTERM
+  scripted_exit_code = st_life_cases % 3 == 0 ? 3221225786u : (DWORD) (rnd() % 256);
+  n_wait = 0;
+  int r = process_wait(h);
+  int want = scripted_exit_code == 3221225786u ? REPROC_SIGTERM : (int) scripted_exit_code;
+  if (r != want) {
+    snprintf(msg, sizeof msg, "process_wait returned %d for exit code %u, expected %d", r, scripted_exit_code, want);
+    hviol("win-wait-status", msg, hh);
+  }
+  if (n_wait != 1 || rec_wait_handle != h || rec_code_handle != h || rec_wait_ms != INFINITE) {
+    snprintf(msg, sizeof msg, "waited on %p (%u ms, %d calls), exit code read from %p; the child's handle is %p", rec_wait_handle, rec_wait_ms, n_wait, rec_code_handle, h);
+    hviol("win-wait-target", msg, hh);
+  }
+  n_ctrl = n_term = 0;
+  r = process_terminate(h);
+  if (r != 0 || n_ctrl != 1 || n_term != 0 || rec_ctrl_event != CTRL_BREAK_EVENT || rec_ctrl_group != pid_of(h)) {
+    snprintf(msg, sizeof msg, "terminate: ret %d, %d console events (event %u to group %u; the child's id is %u), %d TerminateProcess calls", r, n_ctrl, rec_ctrl_event, rec_ctrl_group, pid_of(h), n_term);
+    hviol("win-terminate-target", msg, hh);
+  }
+  n_ctrl = n_term = 0;
+  r = process_kill(h);
+  if (r != 0 || n_term != 1 || n_ctrl != 0 || rec_term_handle != h || rec_term_code != (UINT) REPROC_SIGKILL) {
+    snprintf(msg, sizeof msg, "kill: ret %d, %d TerminateProcess calls (handle %p code %u), %d console events", r, n_term, rec_term_handle, rec_term_code, n_ctrl);
+    hviol("win-kill-target", msg, hh);
+  }
+  if (process_pid(h) != (int) pid_of(h)) hviol("win-pid", "process_pid is not the id of the handle", hh);
+}
+
 int main(int argc, char **argv)
 {
   wrap_init();
   wrap_reset_case();
+  if (argc >= 6 && !strcmp(argv[1], "--life")) {
+    long w = atol(argv[2]), nw = atol(argv[3]);
+    rs = (uint64_t) atol(argv[5]) * 0x9E3779B97F4A7C15ULL + (uint64_t) w * 977 + 3;
+    long n = (!strcmp(argv[4], "thorough") ? 200000 : 8000) / nw + 1;
+    for (long i = 0; i < n; i++) check_life();
+    printf("H\t%ld\t%ld\n", st_life_cases, st_viol);
+    return st_viol ? 1 : 0;
+  }
   if (argc >= 6 && !strcmp(argv[1], "--handles")) {
     long w = atol(argv[2]), nw = atol(argv[3]);
     rs = (uint64_t) atol(argv[5]) * 0x9E3779B97F4A7C15ULL + (uint64_t) w * 131 + 5;
